@@ -194,7 +194,26 @@ def recorded_case(args) -> dict:
     root = core.fresh_dir("c16r")
     out = {"bad": [], "digests": 0, "harness": None}
     try:
-        dataset, _ = dsfamily.build(root, name, hashes=hashes)
+        if name == "unicode":
+            # non-ASCII text in every metadata file whose digest is recorded
+            from pathlib import Path as _P
+            from sedpack.io import Metadata
+            from sedpack.io.dataset_filler import DatasetFiller
+            dataset = D.create(root, fmt="fb", eps=2, hashes=hashes,
+                               metadata=Metadata(
+                                   description="ünïcødé 日本語 ✓",
+                                   custom_metadata={"k": ["é", "日本"]}))
+            for s_, sub in enumerate((None, "x", None, "x/ÿ")):
+                filler = dataset.filler() if sub is None else DatasetFiller(
+                    dataset, relative_path_from_split=_P(sub))
+                with filler as f:
+                    for q in range(3):
+                        f.write_example(
+                            values=D.example((s_, 0, q)), split="train",
+                            custom_metadata={"lábel": f"é日本{s_}{q // 2}",
+                                             "n": [s_, "ß"]})
+        else:
+            dataset, _ = dsfamily.build(root, name, hashes=hashes)
         info = D.load_json(root / "dataset_info.json")
 
         def chk(rel, recorded, who):
@@ -285,7 +304,8 @@ def run(ctx):
         ctx.add(evaluations=n, distinct_nontrivial=n)
         rec = [("nested", ALGOS), ("multi", ("xxh32", "md5")),
                ("cont", ("sha256", "sha256")), ("npz", ("xxh128",)),
-               ("tfrec", ("sha3_512", "xxh64", "sha1"))]
+               ("tfrec", ("sha3_512", "xxh64", "sha1")),
+               ("unicode", ("sha256", "xxh32"))]
         dg = 0
         for r in ex.map(recorded_case, rec):
             if r["harness"]:
